@@ -1038,3 +1038,120 @@ func RunResetOverEarlyTraffic(r sim.Src, mons []*sim.Mon, keepLog bool) *sim.Wor
 	s.W.Finish()
 	return s.W
 }
+
+// RunSilencedCommitted (driver B): the node commits itself in some view, then its operator sets its watch-only flag;
+// while it is silent its peers change view and it follows them with its commit stored; the flag is cleared again and the
+// round of the new view (in which it may be the primary) plays out with timeouts in between.  Whatever happens, it must
+// never produce a second, different commit or pre-commit at the height (MonC03Signatures; seeded change C01m).
+func RunSilencedCommitted(r sim.Src, mons []*sim.Mon, keepLog bool) *sim.World {
+	n := 4 + pick(r, "N", 50, 10, 10, 30)
+	self := r.Intn("self", n)
+	tpb := []time.Duration{time.Second, 5 * time.Second}[r.Intn("tpb", 2)]
+	startTip := uint32(r.Intn("tip", 30))
+	for (int(startTip)+1)%n == self { // a backup in view 0
+		startTip++
+	}
+	if r.Intn("primarynext", 2) == 0 {
+		for (int(startTip)+1)%n == self || (int(startTip)+n)%n != self { // ... and the primary of view 1
+			startTip++
+		}
+	}
+	amev := int64(-1)
+	if r.Intn("amev", 3) == 0 {
+		amev = 0
+	}
+	base := make([]int, n)
+	for i := range base {
+		base[i] = i
+	}
+	cfg := sim.Cfg{IDs: n, Validators: func(uint32) []int { return base }, ValDesc: fmt.Sprintf("const[0..%d]", n-1), StartTip: startTip,
+		AMEVHeight: amev, TimePerBlock: tpb, TsIncrement: 1_000_000, Epoch: epoch0}
+	if r.Intn("salted", 2) == 0 {
+		cfg.SaltedSigs = true
+	}
+	s := sim.NewSolo(cfg, r, self, false, mons, keepLog)
+	nd := s.N
+	nd.AddTx(s.W.NewTx(false))
+	nd.Start()
+	M := n - (n-1)/3
+	others := s.Others()
+	// view 0: the proposal and M-1 responses - the node answers and commits itself (pre-commits under anti-MEV)
+	p0 := s.Proposal(0, s.NextTs(), 11)
+	nd.Receive(p0)
+	cnt := 0
+	for _, j := range others {
+		if j != s.Primary(0) && cnt < M-2 {
+			nd.Receive(s.Response(j, 0, p0.Hash()))
+			cnt++
+		}
+	}
+	if amev >= 0 && r.Intn("fullprecommit", 2) == 0 {
+		for i, j := range others { // M-1 pre-commits of the others: the node goes on to its commit
+			if i < M-1 {
+				nd.Receive(s.PreCommit(j, p0))
+			}
+		}
+	}
+	locked := nd.D.CommitPayloads[nd.D.MyIndex] != nil || nd.D.PreCommitPayloads[nd.D.MyIndex] != nil
+	if !locked || nd.D.BlockSent() || nd.Crashed {
+		s.W.Finish()
+		return s.W
+	}
+	s.W.Stat("silenced_committed_locked")
+	nd.WatchFlag = true // the operator silences it
+	s.W.Stat("watch_flag_set_on_committed_node")
+	for i, j := range others { // the others give up on view 0
+		if i < M {
+			nd.Receive(s.CV(j, 0, 1))
+		}
+	}
+	if r.Intn("timeoutwhilesilent", 2) == 0 {
+		nd.Timeout(s.H(), s.V())
+	}
+	nd.WatchFlag = false // ... and re-enables it
+	if s.V() > 0 {
+		s.W.Stat("silenced_node_followed_view_change")
+	}
+	var p1 sim.Payload
+	for i := 4 + r.Intn("aftermath", 12); i > 0 && !nd.Crashed && len(s.W.Viols) == 0 && !nd.D.BlockSent(); i-- {
+		v := s.V()
+		switch r.Intn("after", 6) {
+		case 0:
+			if nd.Timer.Pending {
+				s.Fire()
+			} else {
+				nd.Timeout(s.H(), v) // no timer was armed while it was silent: the application may still call it
+			}
+		case 1:
+			if !nd.D.IsPrimary() && v > 0 {
+				if p1 == nil || p1.V != v {
+					p1 = s.Proposal(v, s.NextTs(), uint64(20+i))
+				}
+				nd.Receive(p1)
+			}
+		case 2:
+			if pp := nd.D.PreparationPayloads[nd.D.PrimaryIndex]; pp != nil && pp.Type() == dbft.PrepareRequestType {
+				j := others[r.Intn("resp", len(others))]
+				if j != int(nd.D.PrimaryIndex) {
+					nd.Receive(s.Response(j, v, pp.Hash()))
+				}
+			}
+		case 3:
+			if pp := nd.D.PreparationPayloads[nd.D.PrimaryIndex]; pp != nil && pp.Type() == dbft.PrepareRequestType {
+				j := others[r.Intn("cm", len(others))]
+				if s.W.Cfg.AMEVOn(s.H()) && r.Intn("pcorcm", 2) == 0 {
+					nd.Receive(s.PreCommit(j, pp.(*vt.Payload)))
+				} else {
+					nd.Receive(s.Commit(j, pp.(*vt.Payload)))
+				}
+			}
+		case 4:
+			nd.Receive(s.RecoveryRequest(others[r.Intn("rq", len(others))], v))
+		default:
+			s.Advance(tpb * time.Duration(1+r.Intn("dt", 30)) / 10)
+		}
+	}
+	s.W.Stat("silenced_committed")
+	s.W.Finish()
+	return s.W
+}
